@@ -80,6 +80,7 @@ class InterpCore:
         env = Env(None, "module", name)
         m = ModuleV(name, env, src)
         env.vars["__name__"] = name
+        env.vars["__file__"] = str(src.path)
         self.modules[name] = m
         m.state = "running"
         self.frames.append(Frame(None, name))
@@ -510,6 +511,16 @@ class InterpCore:
         try:
             if isinstance(fn.node, ast.Lambda):
                 return self.ev(fn.node.body, env, run)
+            if self.is_generator(fn.node):
+                # a generator function is run eagerly; its yields are collected (sufficient for the
+                # simple validators/iterators of codegen; laziness is not modelled)
+                ys = ListV([])
+                env.vars["__yields__"] = ys
+                try:
+                    self.exec_block(fn.node.body, env, run)
+                except _Return:
+                    pass
+                return ys
             try:
                 self.exec_block(fn.node.body, env, run)
             except _Return as r:
@@ -517,6 +528,22 @@ class InterpCore:
             return None
         finally:
             self.frames.pop()
+
+    def is_generator(self, node) -> bool:
+        k = id(node)
+        if k not in self._scan_cache:
+            found = False
+            todo = list(node.body)
+            while todo:
+                n = todo.pop()
+                if isinstance(n, (ast.Yield, ast.YieldFrom)):
+                    found = True
+                    break
+                if isinstance(n, (ast.FunctionDef, ast.Lambda, ast.ClassDef, ast.AsyncFunctionDef)):
+                    continue
+                todo.extend(ast.iter_child_nodes(n))
+            self._scan_cache[k] = found
+        return self._scan_cache[k]
 
     def is_higher_order(self, func_expr, env) -> bool:
         """True when the callee expression is a *value* (local, parameter, captured variable,
@@ -1043,6 +1070,18 @@ class InterpCore:
             v = self.ev(e.value, env, run)
             self.assign(e.target, v, env, run)
             return v
+        if k is ast.Yield:
+            ys = env.lookup("__yields__")[0]
+            if ys is None:
+                self.limit("yield outside a generator function", e)
+            ys.items.append(self.ev(e.value, env, run) if e.value is not None else None)
+            return None
+        if k is ast.YieldFrom:
+            ys = env.lookup("__yields__")[0]
+            if ys is None:
+                self.limit("yield from outside a generator function", e)
+            ys.items.extend(self.iterate_concrete(self.ev(e.value, env, run), run, e))
+            return None
         if k is ast.Starred:
             self.limit("starred expression", e)
         self.limit(f"expression {k.__name__}", e)
